@@ -685,9 +685,10 @@ func (pm *Portmapper) handleRpcbSet(r io.Reader) []byte {
 		}
 	}
 
-	if port > 0 {
-		pm.RegisterService(prog, vers, prot, port)
+	if port == 0 {
+		return pm.encodeBool(false)
 	}
+	pm.RegisterService(prog, vers, prot, port)
 
 	return pm.encodeBool(true)
 }
